@@ -222,6 +222,22 @@ def s4(ctx):
                     seq = True
             if not seq:
                 problems.append(('terminal reaches no kernel and no into_seq_iter()', None))
+        # every path of the terminal goes through a call that reaches a kernel / consumes into_seq_iter: no shortcut
+        # may answer from metadata (a stored length, a size hint) without visiting the elements
+        routing = set()
+        for bb2, t2 in b.calls():
+            tg, kind = ctx.cg.targets_of(t2)
+            if is_coniter_call(t2, {'into_seq_iter'}):
+                routing.add(bb2)
+                continue
+            for cal in (tg or []):
+                sub = set(ctx.cg.reach(cal))
+                if (sub | {cal}) & kernels or any(any(is_coniter_call(t3, {'into_seq_iter'}) for _, t3 in F.bodies[x].calls()) for x in sub | {cal}):
+                    routing.add(bb2)
+        cfgb = ctx.cfg(b)
+        esc = [x for x in cfgb.returns if x in cfgb.reach(0, avoid=routing)]
+        if esc and m != 'params':
+            problems.append(('terminal can return on a path that never reaches a kernel (an answer not computed from the elements)', None))
         out.inst(key, not problems, 'tasks=%d kernels=%d' % (len(rt), len(rk)),
                  sample={'terminal': key_of(b), 'tasks': sorted(strip_generics(x) for x in rt)[:6]})
         for (msg, tgt) in problems:
